@@ -7,6 +7,7 @@ from canopen.objectdictionary import datatypes as dt
 
 ID = "C04"
 PROOF_MODULES = ["CanopenProofs.C04"]
+GENERATED = ["Datatypes"]
 THEOREMS = [
     "Canopen.C04.table_matches_cia301",
     "Canopen.C04.encode_length",
